@@ -54,9 +54,9 @@ type inst struct {
 	imports map[string]bool
 	// result shape of functions/methods declared in this file, by name
 	// ("osWithStats.Rename", "lockfile", ...): "err", "file", "info", "".
-	shapes map[string]string
-	points []string
-	seen   map[string]bool
+	shapes  map[string]string
+	points  []string
+	seen    map[string]bool
 	wrapped map[ast.Node]bool
 }
 
@@ -86,7 +86,7 @@ var stdShapes = map[string]string{
 	"syscall.Rename": "err", "syscall.Mkdir": "err",
 	"os.Open": "file", "os.OpenFile": "file", "os.Create": "file", "os.CreateTemp": "file",
 	"ioutil.TempFile": "file",
-	"os.Stat": "info", "os.Lstat": "info",
+	"os.Stat":         "info", "os.Lstat": "info",
 }
 
 func main() {
